@@ -544,6 +544,7 @@ def run_impl(case):
             step["loops"] = cv.take_loops()
             step["ops"], step["op_problems"] = cv.group_ops(prims)
             step["choices"] = cv.take_choices()
+            step["refregs"] = cv.take_refregs()
             step["snap"] = snapshot(state)
             step["caught"], cv.REC.notes = cv.REC.notes, []
             step["vm"] = vm_digest(state)
@@ -620,6 +621,11 @@ def model_requests(case, obs):
                 d = _norm_digest(st["vm"])
                 cv.digest_uid_order(d, table)
         reqs.append({"m": "C09.run", "prog": obs["prog"], "events": evs, "fuel": 300})
+    # every registration of a head on a reference match (`match $ref.Finished()`, `$e.action.Finished()` ...): the name is
+    # re-computed by Models/RefName.lean::nameOf from the referent observed at that moment
+    items = [{"var": r["var"], "members": r["members"], "obj": r["obj"]} for st in obs["steps"] for r in st.get("refregs", [])]
+    if items:
+        reqs.append({"m": "C09.refname", "items": items})
     return reqs
 
 
@@ -742,9 +748,33 @@ def compare_vm(case, obs, res):
     return None
 
 
+def compare_refnames(case, obs, res):
+    """Every head the interpreter registered on a reference match is filed under the name `RefName.nameOf` computes from the
+    referent the variable held at that moment (or both raise the same class of exception)."""
+    regs = [(n, r) for n, st in enumerate(obs["steps"]) for r in st.get("refregs", [])]
+    if not isinstance(res, list) or len(res) != len(regs):
+        return f"C09.refname driver failed: {str(res)[:200]}"
+    obs["_refnames"] = len(regs)
+    for (n, r), m in zip(regs, res):
+        where = f"step {n}: head {r['key']} reached `match ${r['var']}{''.join('.' + x for x in (r['members'] or []))}` at {r['flow_id']}:{r['pos']} holding {json.dumps(r['obj'])[:120]}"
+        if "raise" in r:
+            if m.get("err") != r["raise"]:
+                return f"{where}: the interpreter raised {r['raise']} but the model says {m}"
+        elif m.get("ok") != r.get("bucket"):
+            return f"{where}: filed under {r.get('bucket')!r} but the model names {m}"
+    return None
+
+
 def compare(case, obs, mouts):
     if not mouts:
         return None
+    mouts = list(mouts)
+    has_ref = any(st.get("refregs") for st in obs["steps"])
+    ref_out = mouts.pop() if has_ref and len(mouts) >= 2 else None
+    if ref_out is not None:
+        r = compare_refnames(case, obs, ref_out)
+        if r:
+            return r
     r = compare_index(case, obs, mouts[0])
     if r:
         return r
@@ -1035,6 +1065,7 @@ def tags(case, obs):
         if st.get("choices"):
             t.append("tie-break")
     t.append("stmt-names-max:" + str(obs.get("stmt_names_max", 0)))
+    t.append("refname-registrations:" + str(min(50, obs.get("_refnames", 0) // 5 * 5)))
     t.extend("stmt-multi-name-in:" + f for f in obs.get("stmt_multi", []))
     nb = sum(len(st.get("loops", [])) for st in obs["steps"])
     t.append("loop-boundaries:" + str(min(2000, nb // 50 * 50)))
